@@ -15,3 +15,8 @@ def main(tier, seed):
     items = standard_items(seed, tier, 45, 400, bench_quick=20)
     return analysis_check("C01", tier, seed, items=items, N=6 if tier == "quick" else 9,
                           timeout=100 if tier == "quick" else 300, **CONFIG)
+
+
+def replay(path):
+    from ..driver import replay_analysis
+    return replay_analysis("C01", path, want=["parsed", "moments"], builders=[C.b_source, C.b_moments], N=6)
